@@ -255,7 +255,8 @@ WASI_CASES = r"""
       fprintf(OUT, "%d W %d\n", step, (int)ok); break; }
     case 'D': { size_t L = strlen(tok[1]) / 2, j; char* pth = (char*)malloc(L + 1); U32 fd = 0; bool ok;
       for (j = 0; j < L; j++) { unsigned x; sscanf(tok[1] + 2 * j, "%2x", &x); pth[j] = (char)x; } pth[L] = 0;
-      ok = wasiFileDescriptorAdd(-1, pth, &fd); fprintf(OUT, "%d D %d %u\n", step, (int)ok, fd); free(pth); break; }
+      /* "D <path> native": the embedder registers the pre-open together with a native descriptor it opened itself (public API) */
+      ok = wasiFileDescriptorAdd(nt > 2 ? open(pth, O_RDONLY | O_DIRECTORY) : -1, pth, &fd); fprintf(OUT, "%d D %d %u\n", step, (int)ok, fd); free(pth); break; }
 """
 
 
@@ -380,7 +381,7 @@ def gen_driver(plan, module_name, header, multi=False, shared_ok=True, wasi=Fals
     tail = DRIVER_TAIL.replace('@M@', M).replace('@WASICASES@', WASI_CASES if wasi else '')
     if wasi:
         o.insert(1, WASI_PRE)
-        o.insert(1, '#include <sys/stat.h>\n#include "wasi.h"\nstatic int wasiArgc; static char** wasiArgv; static char** wasiEnvp;\n'
+        o.insert(1, '#include <sys/stat.h>\n#include <fcntl.h>\n#include "wasi.h"\nstatic int wasiArgc; static char** wasiArgv; static char** wasiEnvp;\n'
                     'static wasmMemory* getMem(int inst, int ref);\n'
                     'wasmMemory* wasiMemory(void* instance) { int k = 0; if ((char*)instance >= (char*)insts && (char*)instance < (char*)(insts + NINST)) k = (int)((Inst*)instance - insts); return getMem(k, 0); }\n')
     tail = tail.replace('int main(int argc, char** argv) {\n', 'int main(int argc, char** argv) {\n  initImports();\n', 1)
